@@ -234,12 +234,15 @@ def check_run_loop(run: Run, prog: Program) -> None:
         delay_nodes = [i for i, c, _ in helper_delays if fl.awaited(i, c)] \
             + [i for i, c in inline_sleeps if fl.awaited(i, c)]
         all_awaited = len(delay_nodes) == len(helper_delays) + len(inline_sleeps)
-        restarting = fl.consistent(positive(ctr, True), normal=True)  # after the increment ctr > 0
+        # Two phases along a restart path: before the increment the counter may still be 0 (tests on
+        # it are followed both ways and a helper given the counter may not sleep); after it ctr > 0.
+        restarting = fl.consistent(positive(ctr, True), normal=True)
+        helper_nodes = {i for i, c, _ in helper_delays}
+        sleep_here = {i for i, c in inline_sleeps}
         wit = None
-        for x in incs:
-            wit = cfg.path(x, run_nodes, avoid=delay_nodes, edge_ok=restarting, include_src=False)
-            if wit:
-                break
+        for t0 in e_targets:
+            wit = wit or _two_phase_path(cfg, t0, set(run_nodes), set(incs), normal_edge, restarting,
+                                         avoid0=sleep_here, avoid1=sleep_here | helper_nodes)
         ok_arg = True
         for i, c, m in helper_delays:
             hp = m.params[1:]
@@ -276,6 +279,41 @@ def check_run_loop(run: Run, prog: Program) -> None:
 
     # ---- handler order: the first handler able to catch a cancellation must not be able to loop
     # (covered semantically by C10.CANCEL above through the exc:C edge)
+
+
+def _two_phase_path(cfg, src: int, dsts: set[int], switch: set[int], ok0, ok1,  # type: ignore[no-untyped-def]
+                    avoid0: set[int], avoid1: set[int]) -> list[tuple[int, str]] | None:
+    """Shortest path src -> dsts in the product of the CFG with a phase bit that flips when a
+    `switch` node is left; phase p follows edges accepted by ok<p> and never enters avoid<p>."""
+    start = (src, 0)
+    prev: dict[tuple[int, int], tuple[tuple[int, int], str]] = {}
+    seen = {start}
+    queue = [start]
+    qi = 0
+    while qi < len(queue):
+        cur = queue[qi]
+        qi += 1
+        n, ph = cur
+        ph2 = 1 if (ph == 1 or n in switch) else 0
+        for m, lab in cfg.succ[n]:
+            if not (ok1 if ph2 else ok0)(n, m, lab) or m in (avoid1 if ph2 else avoid0):
+                continue
+            nxt = (m, ph2)
+            if m in dsts:
+                out = [(m, lab)]
+                c = cur
+                while c != start:
+                    p, plab = prev[c]
+                    out.append((c[0], plab))
+                    c = p
+                out.append((src, ""))
+                return list(reversed(out))
+            if nxt in seen:
+                continue
+            seen.add(nxt)
+            prev[nxt] = (cur, lab)
+            queue.append(nxt)
+    return None
 
 
 def _check_delay_guard(run: Run, dfl: Flow, param: str, entry_only: bool,
